@@ -128,7 +128,7 @@ CHECKS = {
    note=TB + "Hash-map iteration order abstracted (total comparator + tie-break oracle arguments); ties among equally valued terminal nodes are reported and excluded from trajectory comparisons.",
    technique="Coq proof (two storeys: B&B under diagram contracts; contracts proved about the diagram model) + differential correspondence + specification oracle"),
  "C09": dict(cat="other", design="7.9",
-   text='The threshold cache never changes the answer. Store level: proved (C18). Search level: caching vs non-caching solvers vs exhaustive enumeration on re-converging instances; the Coq models of diagrams and solver include the threshold computations and the cache, and agree with the code on explored-node and poll counts, on every threshold drawn in the DOT dump and on every cache call of a diagram-level stream that uses the stores the way the solvers do. Search-level soundness theorem is open.',
+   text='The threshold cache never changes the answer. Store level: proved (C18). Per compilation: closed Coq theorem C09_every_cache_entry_written_is_sound (Thresholds.v): every threshold a relaxed clean compilation started from an entry-free cache writes is sound - a later arrival at that (state, depth) with a value up to the threshold can only be completed to at most best_known or through a sub-problem this diagram hands out with a value at least as good. Search level (NOT proved): caching vs non-caching solvers vs exhaustive enumeration on re-converging instances; the Coq models of diagrams and solver include the threshold computations and the cache, and agree with the code on explored-node and poll counts, on every threshold drawn in the DOT dump and on every cache call of a diagram-level stream that uses the stores the way the solvers do. Search-level soundness theorem is open.',
    note=TB + "Hash-map iteration order abstracted (total comparator + tie-break oracle arguments); ties among equally valued terminal nodes are reported and excluded from trajectory comparisons.",
    technique="executable Coq model + differential correspondence + specification oracle; store-level Coq proof"),
  "C14": dict(cat="proof", design="7.14",
